@@ -13,6 +13,7 @@ import (
 	"path/filepath"
 	"strings"
 	"sync"
+	"sync/atomic"
 	"time"
 )
 
@@ -85,10 +86,20 @@ func cacheGet(q string) bool {
 	return err == nil
 }
 
+func cacheSolver(q string) string {
+	b, err := os.ReadFile(filepath.Join(cacheDir, cacheKey(q)))
+	if err != nil {
+		return "cache"
+	}
+	return string(b) + "(cached)"
+}
+
 func cachePut(q, solver string) {
 	os.MkdirAll(cacheDir, 0o755)
 	os.WriteFile(filepath.Join(cacheDir, cacheKey(q)), []byte(solver), 0o644)
 }
+
+var statBatchHit, statBatchMiss, statSingleHit, statSingleMiss int64
 
 type solveOpts struct {
 	timeout  time.Duration
@@ -99,6 +110,13 @@ type solveOpts struct {
 
 // discharge decides one obligation.
 func discharge(vc *VC, o *Obligation, opts solveOpts) {
+	ck := vc.oblKey(o)
+	if !opts.noCache && !opts.all && cacheGet(ck) {
+		atomic.AddInt64(&statSingleHit, 1)
+		o.Status = "proved"
+		o.Solver = cacheSolver(ck)
+		return
+	}
 	q := vc.query(o, false)
 	o.Query = q
 	if len(q) > 3<<20 {
@@ -106,11 +124,7 @@ func discharge(vc *VC, o *Obligation, opts solveOpts) {
 		o.Detail = fmt.Sprintf("query of %d bytes exceeds the VC size cap", len(q))
 		return
 	}
-	if !opts.noCache && !opts.all && cacheGet(q) {
-		o.Status = "proved"
-		o.Solver = "cache"
-		return
-	}
+	atomic.AddInt64(&statSingleMiss, 1)
 	t0 := time.Now()
 	defer func() { o.Time = time.Since(t0).Seconds() }()
 	var results []solverRes
@@ -178,7 +192,7 @@ func discharge(vc *VC, o *Obligation, opts solveOpts) {
 	case unsat != nil:
 		o.Status = "proved"
 		o.Solver = unsat.solver
-		cachePut(q, unsat.solver)
+		cachePut(ck, unsat.solver)
 	case sat != nil:
 		o.Status = "failed"
 		o.Solver = sat.solver
@@ -206,7 +220,108 @@ func discharge(vc *VC, o *Obligation, opts solveOpts) {
 	}
 }
 
+// dischargeBatches: obligations at one program point share their context; they are first tried
+// together in one incremental z3 run (push/pop per goal).  Whatever is not "unsat" there is decided
+// individually afterwards with the full solver race.
+func dischargeBatches(jobs []job, opts solveOpts) []job {
+	type key struct {
+		vc     *VC
+		prefix int
+		block  interface{}
+		n      int
+	}
+	groups := map[key][]job{}
+	var order []key
+	chunk := map[key]int{}
+	for _, j := range jobs {
+		k := key{j.vc, j.o.Prefix, j.o.Block, 0}
+		k.n = chunk[k] / 8 // at most 8 goals per solver run, so that the work spreads over the cores
+		k0 := key{j.vc, j.o.Prefix, j.o.Block, 0}
+		chunk[k0]++
+		if _, ok := groups[k]; !ok {
+			order = append(order, k)
+		}
+		groups[k] = append(groups[k], j)
+	}
+	var rest []job
+	var mu sync.Mutex
+	ch := make(chan key)
+	var wg sync.WaitGroup
+	n := opts.parallel
+	if n <= 0 {
+		n = 16
+	}
+	for i := 0; i < n; i++ {
+		wg.Add(1)
+		go func() {
+			defer wg.Done()
+			for k := range ch {
+				g := groups[k]
+				if len(g) < 3 {
+					mu.Lock()
+					rest = append(rest, g...)
+					mu.Unlock()
+					continue
+				}
+				var os []*Obligation
+				for _, j := range g {
+					os = append(os, j.o)
+				}
+				var kb strings.Builder
+				for _, o := range os {
+					kb.WriteString(g[0].vc.oblKey(o))
+					kb.WriteString("\n")
+				}
+				bk := kb.String()
+				t0 := time.Now()
+				if !opts.noCache && cacheGet(bk) {
+					atomic.AddInt64(&statBatchHit, 1)
+					for _, o := range os {
+						o.Status, o.Solver = "proved", "z3-new(batch,cached)"
+					}
+					continue
+				}
+				atomic.AddInt64(&statBatchMiss, 1)
+				q := g[0].vc.queryBatch(os)
+				budget := time.Duration(len(os))*time.Second + 5*time.Second
+				r := runSolver("z3-new", q, budget)
+				el := time.Since(t0).Seconds()
+				var verdicts []string
+				for _, l := range strings.Split(r.out, "\n") {
+					l = strings.TrimSpace(l)
+					if l == "unsat" || l == "sat" || l == "unknown" {
+						verdicts = append(verdicts, l)
+					}
+				}
+				all := len(verdicts) == len(os) && !strings.Contains(r.out, "(error")
+				for i, o := range os {
+					if all && verdicts[i] == "unsat" {
+						o.Status, o.Solver, o.Time = "proved", "z3-new(batch)", el/float64(len(os))
+					} else {
+						all = false
+						mu.Lock()
+						rest = append(rest, g[i])
+						mu.Unlock()
+					}
+				}
+				if all {
+					cachePut(bk, "z3-new(batch)")
+				}
+			}
+		}()
+	}
+	for _, k := range order {
+		ch <- k
+	}
+	close(ch)
+	wg.Wait()
+	return rest
+}
+
 func dischargeAll(jobs []job, opts solveOpts) {
+	if !opts.all {
+		jobs = dischargeBatches(jobs, opts)
+	}
 	n := opts.parallel
 	if n <= 0 {
 		n = 16
